@@ -60,7 +60,7 @@ type Line struct {
 	// pipeline's start) more than one event time-out ahead, plus TickOff: the put races with the time-out delivery
 	Tick    bool          `json:"tick,omitempty"`
 	TickOff time.Duration `json:"tick_off,omitempty"`
-	Bad     int           `json:"bad,omitempty"` // 1 undecodable, 2 empty line
+	Bad     int           `json:"bad,omitempty"` // 1 undecodable, 2 empty line, 3 longer than max_event_size (refused, or cut to something undecodable)
 	Pause   time.Duration `json:"pause,omitempty"`
 }
 
@@ -85,6 +85,10 @@ type Cfg struct {
 	// continuation line every third of the event time-out (their processors stay blocked on them, legitimately); the
 	// remaining sources send one plain line each, which must be attended to although every processor is busy
 	Trickle int `json:"trickle,omitempty"`
+	// MaxSize > 0: max_event_size (far above every ordinary line of the harness) with cut_off_event_by_limit = CutOff;
+	// lines with Bad == 3 are longer: refused outright, or cut to their first MaxSize bytes, which do not decode
+	MaxSize int  `json:"max_event_size,omitempty"`
+	CutOff  bool `json:"cut_off,omitempty"`
 }
 
 func (c *Cfg) SimCfg() *simrt.Config { return &c.Sim }
@@ -130,6 +134,9 @@ func (h *H) Gen(rng *rand.Rand, tier, prop string) core.Cfg {
 		c.Capacity = core.Pick(rng, 1, 1, 2, 2, 3, 4, 8)
 		c.Sim.Boost["cond"] = 5
 		c.Sim.PCT = 0
+	}
+	if core.Chance(rng, 0.5) {
+		c.MaxSize, c.CutOff = 600, core.Chance(rng, 0.6)
 	}
 	c.SingleProc = core.Chance(rng, 0.3)
 	c.EventTimeout = core.DurBetween(rng, 50*time.Millisecond, 5*time.Second)
@@ -215,6 +222,9 @@ func (h *H) Gen(rng *rand.Rand, tier, prop string) core.Cfg {
 		}
 		if core.Chance(rng, 0.03) {
 			l.Bad = core.Between(rng, 1, 2)
+			if c.MaxSize > 0 && core.Chance(rng, 0.5) {
+				l.Bad = 3
+			}
 		} else if core.Chance(rng, 0.06) {
 			l.Reject = true
 		}
@@ -971,6 +981,8 @@ func lineJSON(l Line) []byte {
 		return []byte(`{"id":` + strconv.Itoa(l.ID) + `,"stream` + "\n")
 	case 2:
 		return []byte("\n")
+	case 3:
+		return []byte(`{"id":` + strconv.Itoa(l.ID) + `,"stream":"` + l.Stream + `","pad":"` + strings.Repeat("x", 700) + `"}` + "\n")
 	}
 	var sb strings.Builder
 	fmt.Fprintf(&sb, `{"id":%d,"stream":%q`, l.ID, l.Stream)
@@ -1024,7 +1036,8 @@ func (h *H) Run(cc core.Cfg, sim *simrt.Sim) *core.Outcome {
 			Capacity: cfg.Capacity, MaintenanceInterval: 5 * time.Second, EventTimeout: cfg.EventTimeout,
 			Antispam:     pipeline.AntispamSettings{Threshold: -1, MaintenanceInterval: 5 * time.Second},
 			AvgEventSize: 128, StreamField: "stream", Decoder: "json", Pool: pipeline.PoolType(cfg.Pool),
-			Metric: &pipeline.MetricSettings{HoldDuration: time.Minute},
+			Metric:       &pipeline.MetricSettings{HoldDuration: time.Minute},
+			MaxEventSize: cfg.MaxSize, CutOffEventByLimit: cfg.CutOff,
 		}
 		p := pipeline.New(name, settings, prometheus.NewRegistry(), QuietLogger())
 		r.p = p
